@@ -781,6 +781,126 @@ func c18(c *Ctx) {
 		_ = nMemo
 	}
 
+	// a set that suppresses a send is keyed by the whole identity of what is sent: if _, sent := seen[k]; !sent { ch <- m } with m
+	// made from A (m, err := c.scopeInfo(A)) needs k to carry A itself — a key made of some of A's fields merges series that
+	// differ in the others, and only the first of them is exposed
+	if fn := px.Func("(*collector).Collect"); fn != nil {
+		g := px.FG(fn)
+		for _, x := range g.Nodes {
+			send, ok := x.N.(*ast.SendStmt)
+			if !ok {
+				continue
+			}
+			// the guarding look-up: a comma-ok read of a local map whose ok result is false on the way here
+			var keyExpr ast.Expr
+			var setName string
+			inspectNoLit(fn.Body(), func(nd ast.Node) bool {
+				as, isAs := nd.(*ast.AssignStmt)
+				if !isAs || len(as.Lhs) != 2 || len(as.Rhs) != 1 {
+					return true
+				}
+				ie, isIE := unparen(as.Rhs[0]).(*ast.IndexExpr)
+				if !isIE {
+					return true
+				}
+				mv, isV := objOf(info, ie.X).(*types.Var)
+				if !isV || mv.IsField() || !definedIn(info, fn.Body(), mv) {
+					return true
+				}
+				if _, isMap := mv.Type().Underlying().(*types.Map); !isMap {
+					return true
+				}
+				okVar := objOf(info, as.Lhs[1])
+				if okVar == nil {
+					return true
+				}
+				d, _ := g.DominatedByEdges(x, func(e *GEdge) bool {
+					return edgeImplies(e, func(cnd ast.Expr, pol int) bool {
+						id, isID := cnd.(*ast.Ident)
+						return isID && pol < 0 && info.Uses[id] == okVar
+					})
+				})
+				if d {
+					keyExpr, setName = ie.Index, mv.Name()
+				}
+				return true
+			})
+			if keyExpr == nil {
+				continue
+			}
+			// what the sent value was made from
+			var made *ast.CallExpr
+			if o := objOf(info, send.Value); o != nil {
+				inspectNoLit(fn.Body(), func(nd ast.Node) bool {
+					if as, isAs := nd.(*ast.AssignStmt); isAs && len(as.Rhs) == 1 {
+						for _, l := range as.Lhs {
+							if objOf(info, l) == o {
+								if cl, isC := unparen(as.Rhs[0]).(*ast.CallExpr); isC {
+									made = cl
+								}
+							}
+						}
+					}
+					return true
+				})
+			} else if cl, isC := unparen(send.Value).(*ast.CallExpr); isC {
+				made = cl
+			}
+			if made == nil {
+				continue
+			}
+			key := keyExpr
+			if d := g.LocalDef(objOf(info, keyExpr)); d != nil {
+				key = d
+			}
+			// maximal operand paths of the key
+			whole := map[string]bool{}
+			var paths func(e ast.Node)
+			paths = func(e ast.Node) {
+				ast.Inspect(e, func(m ast.Node) bool {
+					switch y := m.(type) {
+					case *ast.SelectorExpr:
+						whole[exprStr(y)] = true
+						return false
+					case *ast.KeyValueExpr:
+						paths(y.Value)
+						return false
+					case *ast.Ident:
+						whole[y.Name] = true
+					}
+					return true
+				})
+			}
+			paths(key)
+			var partial []string
+			for _, a := range made.Args {
+				as := exprStr(unparen(a))
+				if _, isSel := unparen(a).(*ast.SelectorExpr); !isSel {
+					if _, isID := unparen(a).(*ast.Ident); !isID {
+						continue
+					}
+				}
+				if whole[as] {
+					continue
+				}
+				var parts []string
+				for w := range whole {
+					if strings.HasPrefix(w, as+".") {
+						parts = append(parts, strings.TrimPrefix(w, as+"."))
+					}
+				}
+				sort.Strings(parts)
+				if len(parts) == 0 {
+					partial = append(partial, as+" (not in the key at all)")
+				} else {
+					partial = append(partial, as+" (only "+strings.Join(parts, ", ")+")")
+				}
+			}
+			c.Check(len(partial) == 0, "R4", "prometheus|(*collector).Collect|the set "+setName+" that suppresses a send is keyed by what the sent value is made from", at(px.M, send.Pos()), exprStr(key)+" carries the argument(s) of "+exprStr(made.Fun),
+				"the send of "+exprStr(send.Value)+" is skipped when "+exprStr(key)+" was seen, but the value is made from "+strings.Join(partial, "; ")+": two scopes that agree on those fields and differ elsewhere (e.g. in their attributes) have different series, and only the first one met in a scrape is exposed")
+		}
+	}
+
 	c.Rule("R7", "E3 per-iteration reset", "in Collect, a label buffer (keyVals) that is appended to inside the per-scope loop is either created inside that loop or emptied on every path from the start of an iteration to the append: labels of one scope never pile up on the next", 2)
 	if fn := c.Fn(px, "R7", "(*collector).Collect"); fn != nil {
 		g := px.FG(fn)
